@@ -827,6 +827,16 @@ def run_gate_cases(cases: list[dict]) -> list[dict]:
     return out
 
 
+def _ask(reqs: list) -> list:
+    """Driver call; one retry after (re)building the driver modules: other properties' builders
+    register their handlers in Drv/All.lean concurrently, an olean can be missing for a moment."""
+    try:
+        return leanio.Driver().ask(reqs)
+    except leanio.LeanError:
+        leanio.lake_build(["Kopf.Drv.All"])
+        return leanio.Driver().ask(reqs)
+
+
 def _new_summary() -> dict:
     return {"cases": [], "hist": {}, "oracle": [], "tie": [], "tie_comparisons": 0, "samples": [], "traces": 0,
             "lean_error": None}
@@ -863,7 +873,7 @@ def summarise_index(results: list[dict], source: str, sm: dict | None = None, wi
         reqs.append(model_request(case))
     if with_lean and reqs:
         try:
-            outs = leanio.Driver().ask(reqs)
+            outs = _ask(reqs)
         except leanio.LeanError as e:
             sm["lean_error"] = (str(e), e.log[-2000:])
             return sm
@@ -910,7 +920,7 @@ def summarise_gate(results: list[dict], source: str, sm: dict | None = None, wit
         reqs.append(["C17.gate", obs["labels"]])
     if with_lean and reqs:
         try:
-            outs = leanio.Driver().ask(reqs)
+            outs = _ask(reqs)
         except leanio.LeanError as e:
             sm["lean_error"] = (str(e), e.log[-2000:])
             return sm
